@@ -37,6 +37,7 @@ INSTANTS = [0, 999, 1000, 59999999, 60 * S, 3599999000, 3600 * S, 3600 * S + 150
 TEXTS = [
     ["hello"], ["one", "two"], ["one", None, "two"], ["one", " ", "two"], ["42"], ["a --> b"],
     ["<i>x</i> & y"], ["&amp; &lt;"], ["{1}{2}x"], ["one", "two", "three", "four"], ["é ü 漢"],
+    ["He said", "...", "nothing"], ["?!"], ["♪ ♪"], ["100% sure %s %d %%"],
 ]
 BAR = ["a|b"]
 
@@ -152,6 +153,10 @@ def caption_sets(texts, thorough):
         yield [(s, e, texts[0]), (s, e, texts[1])]
         yield [(s, e, texts[0]), (s, e, texts[1]), (pairs[i + 1][0], pairs[i + 1][1], texts[4])]
         yield [(s, e, texts[0]), (pairs[i + 1][0], pairs[i + 1][1], texts[4]), (pairs[i + 2][0], pairs[i + 2][1], texts[1])]
+    # captions that are NOT in ascending order of start: one cue per caption, in the set's own order
+    for t in range(0, len(texts), 3):
+        yield [(pairs[4][0], pairs[4][1], texts[t]), (pairs[1][0], pairs[1][1], texts[(t + 1) % len(texts)]),
+               (pairs[2][0], pairs[2][1], texts[(t + 2) % len(texts)])]
     if thorough:
         for i in range(len(pairs) - 2):
             for t in range(len(texts)):
